@@ -9,10 +9,12 @@ CONSTANTS MaxLen = 3
   Variant = "doc"
   CopyVarContext = FALSE
   ExtendByCompose = TRUE
+  PathKeys = FALSE
 INVARIANT DataEq
 INVARIANT ComposeEqSeq
 INVARIANT CombineTuple
 INVARIANT TypedDeclarative
+INVARIANT TypesAvailable
 INVARIANT NestedFlattens
 INVARIANT CarriesName
 INVARIANT CarriesAttributes
